@@ -45,9 +45,11 @@ def endianOf (lendian : Bool) : Endian := if lendian then .little else .big
 def packB (n : Int) : Except PyErr Bytes :=
   if 0 ≤ n ∧ n < 256 then .ok [UInt8.ofNat n.toNat] else .error .struct
 
-/-- `struct.pack(lendian and '<I' or '>I', n)` -/
+/-- `struct.pack(lendian and '<I' or '>I', n)`: `0 <= n <= 4294967295` or struct.error.  (The upper bound
+is tested on `n.toNat`: for a symbolic `n` the kernel cannot reduce an `Int` comparison with a large
+literal, it can reduce the `Nat` one.) -/
 def packI (le : Bool) (n : Int) : Except PyErr Bytes :=
-  if 0 ≤ n ∧ n < 4294967296 then .ok (encUInt (endianOf le) 4 n.toNat) else .error .struct
+  if 0 ≤ n ∧ n.toNat < 4294967296 then .ok (encUInt (endianOf le) 4 n.toNat) else .error .struct
 
 /-- `marshal_byte`: `1, [struct.pack('<B', var)]`; a non-integer makes `struct.pack` raise. -/
 def marshalByte (var : PyVal) : MRes :=
@@ -229,19 +231,30 @@ def unpackU (e : Endian) (k : Nat) (r : Rd) : Except PyErr Nat :=
 def unpackS (e : Endian) (k : Nat) (r : Rd) : Except PyErr Int :=
   if k ≤ r.rest.length then .ok (decSInt e (r.rest.take k)) else .error .struct
 
+/-- `return k, f(struct.unpack_from(...)[0])` -/
+def retU (res : Except PyErr Nat) (k : Nat) (f : Nat → PyVal) : Except PyErr (Nat × PyVal) :=
+  match res with
+  | .ok n => .ok (k, f n)
+  | .error x => .error x
+
+def retS (res : Except PyErr Int) (k : Nat) (f : Int → PyVal) : Except PyErr (Nat × PyVal) :=
+  match res with
+  | .ok n => .ok (k, f n)
+  | .error x => .error x
+
 /-- The 13 unmarshallers of the basic types: `(nbytes, value)`. -/
 def unmarshalBasic (le : Bool) (c : Basic) (r : Rd) (fds : Option (List Int)) : Except PyErr (Nat × PyVal) :=
   let e := endianOf le
   match c with
-  | .y => (unpackU e 1 r).map fun n => (1, .int .plain n)
-  | .b => (unpackU e 4 r).map fun n => (4, .bool (n != 0))
-  | .n => (unpackS e 2 r).map fun n => (2, .int .plain n)
-  | .q => (unpackU e 2 r).map fun n => (2, .int .plain n)
-  | .i => (unpackS e 4 r).map fun n => (4, .int .plain n)
-  | .u => (unpackU e 4 r).map fun n => (4, .int .plain n)
-  | .x => (unpackS e 8 r).map fun n => (8, .int .plain n)
-  | .t => (unpackU e 8 r).map fun n => (8, .int .plain n)
-  | .d => (unpackU e 8 r).map fun n => (8, .float (UInt64.ofNat n))
+  | .y => retU (unpackU e 1 r) 1 fun n => .int .plain (Int.ofNat n)
+  | .b => retU (unpackU e 4 r) 4 fun n => .bool (n != 0)
+  | .n => retS (unpackS e 2 r) 2 fun n => .int .plain n
+  | .q => retU (unpackU e 2 r) 2 fun n => .int .plain (Int.ofNat n)
+  | .i => retS (unpackS e 4 r) 4 fun n => .int .plain n
+  | .u => retU (unpackU e 4 r) 4 fun n => .int .plain (Int.ofNat n)
+  | .x => retS (unpackS e 8 r) 8 fun n => .int .plain n
+  | .t => retU (unpackU e 8 r) 8 fun n => .int .plain (Int.ofNat n)
+  | .d => retU (unpackU e 8 r) 8 fun n => .float (UInt64.ofNat n)
   | .h =>
     -- index = unpack; try: fd = oobFDs[index] except IndexError: fd = None   (oobFDs None: TypeError)
     match unpackU e 4 r with
